@@ -94,6 +94,11 @@ static uint8_t loop_stop(m_ctx_t *c) {
      */
     m_mem_ref(c);
     c->state = M_CTX_IDLE;
+    /*
+     * The loop cannot be started again by the callbacks run by the final flush:
+     * the rest of this function would tear it down (poll data, thread pool, stats) while it is running.
+     */
+    c->stopping = true;
     
     /* Publish loop stopped system message */
     tell_system_pubsub_msg(NULL, c, NULL, M_PS_CTX_STOPPED);
@@ -127,6 +132,7 @@ static uint8_t loop_stop(m_ctx_t *c) {
      * and last module's tried to call m_ctx_deregister(), it returned -EPERM.
      * Gracefully deregister it now.
      */
+    c->stopping = false;
     if (m_map_len(c->modules) == 0 && !(c->flags & M_CTX_PERSIST)) {
         m_ctx_deregister();
     }
@@ -365,6 +371,7 @@ static int m_ctx_loop_events(m_ctx_t *c, int max_events) {
     M_PARAM_ASSERT(max_events > 0);
     M_LOG_ASSERT(c->state == M_CTX_IDLE, "Context already looping.", -EINVAL);
     M_LOG_ASSERT(!c->destroying, "Context is being deregistered.", -EINVAL);
+    M_LOG_ASSERT(!c->stopping, "Context loop is being stopped.", -EINVAL);
 
     int ret = loop_start(c, max_events);
     if (ret == 0) {
@@ -529,8 +536,8 @@ _public_ int m_ctx_dispatch(void) {
     m_mem_ref(c);
     if (c->state == M_CTX_IDLE) {
         /* Ok, start now (unless the context is being deregistered) */
-        if (c->destroying) {
-            M_DEBUG("Context is being deregistered.\n");
+        if (c->destroying || c->stopping) {
+            M_DEBUG("Context is being deregistered, or its loop is being stopped.\n");
             ret = -EINVAL;
         } else {
             ret = loop_start(c, M_CTX_DEFAULT_EVENTS);
